@@ -1,6 +1,7 @@
 /- driver family `kern`: kernel ports evaluated in IEEE double; floats travel as bit patterns -/
 import MagpyVerif.Model.Kernels
 import MagpyVerif.Model.Cylinder
+import MagpyVerif.Model.Celv
 import MagpyVerif.Model.CylSegWrap
 import MagpyVerif.Model.CylSegSpecial
 import MagpyVerif.Gen.Const
@@ -85,6 +86,29 @@ def run : P String := do
       match celIterDispatch 200 rows with
       | some vs => pure (" ".intercalate (vs.map fun v => s!"{v.toBits}"))
       | none => pure "no-convergence"
+  | "celbatch" => do
+      -- a whole batch for `celv` (mode v), the dispatcher `cel` (mode d) or entry by entry through `celv` on one-entry batches (mode s)
+      let mode ← tok
+      let k ← nat
+      let mut batch : List (CelArg Float) := []
+      for _ in [0:k] do
+        let kc ← flt; let p ← flt; let c ← flt; let s ← flt
+        batch := batch ++ [{ kc := kc, p := p, c := c, s := s }]
+      let res := if mode == "v" then celv 200 batch
+                 else if mode == "d" then celDispatch 200 batch
+                 else seqOpt (batch.map (celv1 200))
+      match res with
+      | some vs => pure (" ".intercalate (vs.map fun v => s!"{v.toBits}"))
+      | none => pure "none"
+  | "el3batch" => do
+      -- `el3` on a batch, modelled entry by entry through the port of the scalar `el30` (the array routine `el3v` has the loop
+      -- skeleton `MaskedLoop`, row-wise by `MaskedLoop.run_rowwise`)
+      let k ← nat
+      let mut vs : List Float := []
+      for _ in [0:k] do
+        let x ← flt; let kc ← flt; let p ← flt
+        vs := vs ++ [CylSegF.el30 x kc p]
+      pure (" ".intercalate (vs.map fun v => s!"{v.toBits}"))
   | "cuboidmask" => do
       let d ← v3; let p ← v3; let x ← v3
       let m := cuboidMasks d p x
